@@ -193,7 +193,7 @@ func gradCase(css string) map[string]any {
 	} else {
 		out["type"] = g.Type
 		out["dir"] = codepoints(g.Direction)
-		var stops [][]any
+		stops := [][]any{}
 		for _, s := range g.ColorStops {
 			stops = append(stops, []any{codepoints(s.Color), codepoints(s.Position)})
 		}
